@@ -285,6 +285,9 @@ func Gen(t *Type, r *fw.Rng, force, class int) (*Values, []string) {
 			v.Status = uint32(r.Intn(0x100))
 		}
 	}
+	if t.BodylessOnError && r.Bool() {
+		v.Status = 0
+	}
 	classes := make([]string, len(t.Fields))
 	derived := map[string]bool{}
 	for _, f := range t.Fields {
@@ -364,6 +367,7 @@ func Gen(t *Type, r *fw.Rng, force, class int) (*Values, []string) {
 			v.F[f.Spec] = GenTLVs(r, k)
 		}
 	}
+	BlankBodyOnError(t, v)
 	return v, classes
 }
 
